@@ -177,6 +177,11 @@ func (c CurlyRouter) computeWebserviceScore(requestTokens []string, tokens []str
 				if matchesToken, _ := c.regularMatchesPathToken(other, colon, each); !matchesToken {
 					return false, score
 				}
+			} else if closing := strings.Index(other, "}"); closing != -1 && closing < len(other)-1 {
+				// {var}suffix : only matches tokens that end with the literal suffix
+				if !strings.HasSuffix(each, other[closing+1:]) {
+					return false, score
+				}
 			}
 			score += 1
 		} else {
